@@ -217,12 +217,16 @@ func (f *MemFile) Read(b []byte) (n int, err error) {
 	}
 
 	nd.mu.RLock()
-	n = copy(b, nd.data[f.at:])
+
+	if f.at < int64(len(nd.data)) {
+		n = copy(b, nd.data[f.at:])
+	}
+
 	nd.mu.RUnlock()
 
 	f.at += int64(n)
 
-	if n == 0 {
+	if n == 0 && len(b) > 0 {
 		return 0, io.EOF
 	}
 
@@ -651,6 +655,16 @@ func (f *MemFile) Write(b []byte) (n int, err error) {
 	}
 
 	nd.mu.Lock()
+
+	if f.openMode&avfs.OpenAppend != 0 {
+		// every write of a file opened with O_APPEND lands at the current end of the file.
+		f.at = int64(len(nd.data))
+	}
+
+	if gap := f.at - int64(len(nd.data)); gap > 0 {
+		// writing beyond the end of the file leaves a zero filled gap.
+		nd.data = append(nd.data, make([]byte, gap)...)
+	}
 
 	n = copy(nd.data[f.at:], b)
 	if n < len(b) {
